@@ -448,11 +448,15 @@ Section Sound.
     assert (Hp : p = nm_member nm n) by (eapply member_name_nm; [apply Hc | exact Ep]).
     subst p. cbn [eval_py eval]. rewrite (IHi G i' r r' Hc Hv Hr Ei).
     destruct (eval r i fuel) as [v|x]; [|reflexivity]. cbn [ren_result].
-    destruct v; cbn [ren_value]; try reflexivity.
-    - fold (ren_fields nm fields). rewrite (ren_lookup_member nm Hok).
-      destruct (lookup n fields); reflexivity.
-    - rewrite (er_enum_lits _ _ _ _ Hr), (ren_mem_member nm Hok).
-      destruct (mem_text n (enum_lits r name)); reflexivity.
+    destruct v as [ | vb | vz | vq | vs | vbs | vl | vl | ven vlit | oid cls fs | vf | ven ];
+      cbn [ren_value]; try reflexivity.
+    (* enumeration literal / enumeration class: the members are the literals *)
+    all: try solve [ rewrite (er_enum_lits _ _ _ _ Hr), (ren_mem_member nm Hok);
+                     match goal with |- context [if mem_text ?a ?l then _ else _] => destruct (mem_text a l) end;
+                     reflexivity ].
+    (* object: the members are the fields *)
+    fold (ren_fields nm fs). rewrite (ren_lookup_member nm Hok).
+    destruct (lookup n fs); reflexivity.
   Qed.
 
   Lemma tsound_Name x : tsound (Name x).
@@ -669,8 +673,9 @@ Section Sound.
     rewrite Hl, Hmap, ren_args_results.
     destruct (lookup f (vars r)) as [fv|]; cbn [option_map]; [|reflexivity].
     destruct (args_results (map (fun v => eval r v fuel) args)) as [vs|x]; cbn [ren_lres]; [|reflexivity].
-    destruct fv; cbn [ren_value ren_result]; try reflexivity.
-    rewrite (fn_len nm Hok). destruct (text_eqb name (s2l "len")); [apply ren_py_len | apply Himpl].
+    destruct fv as [ | vb | vz | vq | vs0 | vbs | vl | vl | ven vlit | oid cls fs | g | ven ];
+      cbn [ren_value ren_result]; try reflexivity.
+    rewrite (fn_len nm Hok). destruct (text_eqb g (s2l "len")); [apply ren_py_len | apply Himpl].
   Qed.
 
   Lemma tsound_FunctionCall f args : Forall tsound args -> tsound (FunctionCall f args).
@@ -711,10 +716,11 @@ Section Sound.
     rewrite eval_py_call_meth, eval_py_paren_unless.
     rewrite (IHi G i' r r' Hc (bv_l _ _ _ Hv) Hr Ei). cbn [eval].
     destruct (eval r i fuel) as [v|x]; [|reflexivity]. cbn [ren_result].
-    destruct v; cbn [ren_value]; try reflexivity.
-    fold (ren_fields nm fields). rewrite Hmap, ren_args_results.
+    destruct v as [ | vb | vz | vq | vs0 | vbs | vl | vl | ven vlit | oid cls fs | vf | ven ];
+      cbn [ren_value]; try reflexivity.
+    fold (ren_fields nm fs). rewrite Hmap, ren_args_results.
     destruct (args_results (map (fun v => eval r v fuel) args)) as [vs|x]; cbn [ren_lres]; [|reflexivity].
-    rewrite (ren_lookup_member nm Hok). destruct (lookup m fields) as [w|]; cbn [option_map].
+    rewrite (ren_lookup_member nm Hok). destruct (lookup m fs) as [w|]; cbn [option_map].
     - destruct w; reflexivity.
     - apply (er_meth_impl _ _ _ _ Hr).
   Qed.
